@@ -45,7 +45,7 @@ def run_one(m, keep=False):
         kf = os.path.join(VERIF, "known_findings.txt")
         if os.path.exists(kf):
             shutil.copy(kf, vdir)
-        r = subprocess.run([os.path.join(VERIF, "bin/sa"), "check", "-prop", m["prop"], "-tier", "quick", "-repo", repo, "-verif", vdir],
+        r = subprocess.run([os.environ.get("SA_BIN") or os.path.join(VERIF, "bin/sa"), "check", "-prop", m["prop"], "-tier", "quick", "-repo", repo, "-verif", vdir],
                            capture_output=True, text=True, env=ENV, timeout=600)
         out = r.stdout
         viol = [l for l in out.splitlines() if " violated " in l]
